@@ -748,7 +748,7 @@ class Message:
             # eg. IPvFuture literals, which urllib accepts but ipaddress does not
             raise error.MalformedUrlError("Unsupported IP literal") from e
 
-        is_ip_literal = parsed.netloc.startswith("[") or (
+        is_ip_literal = "[" in parsed.netloc or (
             parsed.hostname.count(".") == 3
             and all(c in "0123456789." for c in parsed.hostname)
             and all(
